@@ -1710,13 +1710,72 @@ func TestZZVerifC09Conc(t *testing.T) {
 		}
 	}
 
+	wd, _ := strconv.Atoi(zzGetenv("VERIF_HIST_WATCHDOG_S"))
+	if wd <= 0 {
+		wd = 15
+	}
+
+	// Every history runs in its own goroutine group on a fresh module in its
+	// own directory, under a watchdog: an operation of the code under test that
+	// never returns is an observation (recorded with the seed and a goroutine
+	// dump), not a reason to lose the whole run.  After such a history the rest
+	// is skipped: the check settles it first (re-run alone in a fresh process).
+	type res struct {
+		h   *zzC09Hist
+		err error
+	}
+
+	hangs := 0
 	for i, sd := range seeds {
-		h, herr := zzC09RunHist(dir, sd)
-		if herr != nil {
-			t.Fatalf("history %d (seed %d): %v", i, sd, herr)
+		hdir := filepath.Join(dir, strconv.Itoa(i))
+		if err = os.MkdirAll(hdir, 0o755); err != nil {
+			t.Fatal(err)
 		}
 
-		h.H = i + 1
-		out.put(h)
+		ch := make(chan res, 1)
+		go func() {
+			h, herr := zzC09RunHist(hdir, sd)
+			ch <- res{h: h, err: herr}
+		}()
+
+		select {
+		case r := <-ch:
+			if r.err != nil {
+				t.Fatalf("history %d (seed %d): %v", i, sd, r.err)
+			}
+
+			r.h.H = i + 1
+			out.put(r.h)
+			_ = os.RemoveAll(hdir)
+		case <-time.After(time.Duration(wd) * time.Second):
+			hangs++
+			out.put(map[string]any{"kind": "hang", "seed": sd, "i": i, "watchdog_s": wd, "dump": zzC09Dump()})
+		}
+
+		if hangs >= 1 {
+			out.put(map[string]any{"kind": "aborted", "done": i + 1, "of": len(seeds)})
+
+			break
+		}
 	}
+}
+
+// zzC09Dump returns the stacks of the goroutines that are inside the package
+// under test, capped.
+func zzC09Dump() (dump string) {
+	buf := make([]byte, 1<<20)
+	buf = buf[:runtime.Stack(buf, true)]
+	var keep []string
+	for _, blk := range strings.Split(string(buf), "\n\n") {
+		if strings.Contains(blk, "internal/stats.(*StatsCtx)") || strings.Contains(blk, "bbolt.") {
+			keep = append(keep, blk)
+		}
+	}
+
+	dump = strings.Join(keep, "\n\n")
+	if len(dump) > 8000 {
+		dump = dump[:8000] + "\n..."
+	}
+
+	return dump
 }
